@@ -665,8 +665,13 @@ class Check:
         At the end: violations found elsewhere are still reported (exit 1); if there are none,
         the analysis error makes the run exit 2."""
         covered_by = kw.pop("covered_by", None)
+        own_rules = kw.pop("rules", ())
         try:
             r = fn(*args, **kw)
+            for rid in own_rules:
+                rr = self.rules.get(rid)
+                if rr is not None and rr["instances"] < rr["min"] and not rr["failed"]:
+                    raise AnalysisError(f"rule {rid} matched {rr['instances']} instance(s), fewer than the {rr['min']} confirmed by hand on the pinned tree: the rule lost its anchors")
             self.decided_groups.add(getattr(fn, "__name__", "rule"))
             return r
         except AnalysisError as e:
@@ -675,6 +680,9 @@ class Check:
                 # now): the form-specific rule not recognising the new form is not an analysis failure
                 self.note(f"{getattr(fn, '__name__', 'rule')} does not recognise the current form ({str(e)[:160]}); the obligation is decided by {covered_by}")
                 self.covered_groups.add(getattr(fn, "__name__", "rule"))
+                for rid in own_rules:
+                    if rid in self.rules:
+                        self.rules[rid]["min"] = 0  # decided by the covering group on this tree
                 return None
             self.analysis_errors.append(f"{getattr(fn, '__name__', 'rule')}: {e}")
             return None
@@ -686,7 +694,7 @@ class Check:
     def finish(self):
         # vacuity guard (only meaningful when every rule group could run)
         for rid, r in self.rules.items():
-            if r["instances"] < r["min"] and not self.analysis_errors and not self.violations and not self.covered_groups:
+            if r["instances"] < r["min"] and not self.analysis_errors and not self.violations:
                 raise AnalysisError(
                     f"rule {rid} matched {r['instances']} instance(s), fewer than the "
                     f"{r['min']} confirmed by hand on the pinned tree: the rule lost its anchors"
